@@ -211,7 +211,9 @@ func init() {
 			if tier == "thorough" {
 				dupCounts = append(dupCounts, 2000)
 			}
-			dupDecls := []string{"[16777215]", "[1099511627776]", "[16777215..]", "[..16777215]", "[1000000]", ""}
+			// "+i": every duplicate declares one character more than the one before (a placeholder that is rebuilt whenever
+			// the declared size grows is no better than one per duplicate)
+			dupDecls := []string{"[16777215]", "[1099511627776]", "[16777215..]", "[..16777215]", "[1000000]", "", "+i"}
 			sp = append(sp, h.Space{Name: "duplicated-ascii-variables-with-huge-declarations", Count: product(len(dupCounts), len(dupDecls), 2), ChunkHint: 1,
 				Describe: func(i uint64) interface{} {
 					d := unrank(i, len(dupCounts), len(dupDecls), 2)
@@ -223,6 +225,21 @@ func init() {
 					text := "S1F1 H->E <L <A x> " + strings.Repeat(item, dupCounts[d[0]]) + "> ."
 					if d[2] == 1 {
 						text = "S1F1 H->E <L <A x> " + strings.Repeat("<L "+item, dupCounts[d[0]]) + strings.Repeat(">", dupCounts[d[0]]) + "> ."
+					}
+					if dupDecls[d[1]] == "+i" {
+						var sb strings.Builder
+						sb.WriteString("S1F1 H->E <L <A x> ")
+						for j := 0; j < dupCounts[d[0]]; j++ {
+							if d[2] == 1 {
+								sb.WriteString("<L ")
+							}
+							fmt.Fprintf(&sb, "<A[%d] x> ", 16777215-dupCounts[d[0]]+j)
+						}
+						if d[2] == 1 {
+							sb.WriteString(strings.Repeat(">", dupCounts[d[0]]))
+						}
+						sb.WriteString("> .")
+						text = sb.String()
 					}
 					_, out := totalParse(c, "duplicated-ascii-variables", text)
 					if out != "rejected" && out != "panic" && out != "bad" {
